@@ -6,7 +6,7 @@ import c01
 
 def run_part(c):
     c.rule = (c.rule + " | " if c.rule else "") + (
-        "C18a: the C01 fault-script scenarios with 1-3 counting / header-appending / panicking interceptors configured; "
+        "C18a: the C01 fault-script scenarios with 1-5 counting / header-appending / panicking / nil interceptors configured, as pointer, func-typed adapter or by-value struct with a slice (unhashable dynamic types); "
         "compared: the interceptor invocations inside the dispatcher's step log (exact, in order) and the interceptors' own call log per message id")
     c.trust("Go harness go/harness/internal/cluster + shims go/shims/producer_*.go (C18a rides on the C01 machinery)")
     c.assume("an interceptor that panics does so before mutating the message (harness interceptors are written that way)")
